@@ -11,18 +11,6 @@ Definition reference (r : ref) : Prop := match r with RNew _ => False | _ => Tru
 (* not written through bare Ident, nor raw *)
 Definition qualifying (r : ref) : Prop := match r with RBare _ | RRaw _ => False | _ => True end.
 
-(* round 5: the one statement form that writes a type reference RAW is a column type change between
-   a serial type and an enum type (alterType, arm "sequence was dropped": FormatType(To); its reverse for
-   enum -> serial).  [sub_ok]: not that form. *)
-Definition sub_ok (s : sub) : Prop :=
-  match s with
-  | ModifyColumn _ fe te fs ts _ _ _ =>
-      (fs <> None -> ts = None -> te = None) /\ (ts <> None -> fs = None -> fe = None)
-  | _ => True
-  end.
-Definition change_ok (c : change) : Prop :=
-  match c with ModifyTable _ subs => Forall sub_ok subs | _ => True end.
-
 (* the names of a reference, without any schema component *)
 Definition ref_names (r : ref) : list bytes :=
   match r with
@@ -122,81 +110,44 @@ Lemma enum_ref_ok (e : option (option bytes * bytes)) :
   Forall qualifying (match e with Some (ns, n) => [RType ns n] | None => [] end).
 Proof. destruct e as [[ns n]|]; repeat constructor. Qed.
 
-Lemma alter_type_refs_ok o c te fs ts :
-  (fs <> None -> ts = None -> te = None) -> Forall qualifying (alter_type_refs o c te fs ts).
+Lemma alter_type_refs_ok o c te fs ts : Forall qualifying (alter_type_refs o c te fs ts).
 Proof.
-  intros H. unfold alter_type_refs. destruct fs as [f|], ts as [t|]; try constructor; try exact I; try constructor.
-  - rewrite (H ltac:(discriminate) eq_refl). constructor.
+  unfold alter_type_refs. destruct fs as [f|], ts as [t|].
+  - constructor.
+  - apply enum_ref_ok.
+  - repeat constructor.
   - apply enum_ref_ok.
 Qed.
 
-Lemma alter_fwd_ok pg o s : sub_ok s -> Forall qualifying (alter_fwd pg o s).
+Lemma alter_fwd_ok pg o s : Forall qualifying (alter_fwd pg o s).
 Proof.
-  intros K. destruct s; simpl; try constructor; try apply col_refs_ok; try (repeat constructor; fail).
-  destruct (pg && ty); [apply alter_type_refs_ok; exact (proj1 K)|constructor].
+  destruct s; simpl; try constructor; try apply col_refs_ok; try (repeat constructor; fail).
+  destruct (pg && ty); [apply alter_type_refs_ok|constructor].
 Qed.
-Lemma alter_bwd_ok pg o s : sub_ok s -> Forall qualifying (alter_bwd pg o s).
+Lemma alter_bwd_ok pg o s : Forall qualifying (alter_bwd pg o s).
 Proof.
-  intros K. destruct s; simpl; try constructor; try apply col_refs_ok; try (repeat constructor; fail).
-  destruct (pg && ty); [apply alter_type_refs_ok; exact (proj2 K)|constructor].
-Qed.
-
-Lemma refs_flat_map_in {A} (f : A -> list ref) (P : A -> Prop) l :
-  Forall P l -> (forall x, P x -> Forall qualifying (f x)) -> Forall qualifying (flat_map f l).
-Proof.
-  intros HP H. induction HP as [|x l Hx Hl IH]; simpl; [constructor|]. apply Forall_app; split; auto.
+  destruct s; simpl; try constructor; try apply col_refs_ok; try (repeat constructor; fail).
+  destruct (pg && ty); [apply alter_type_refs_ok|constructor].
 Qed.
 
-Lemma alter_stmts_ok pg o head l : qualifying head -> Forall sub_ok l -> stmts_ok (alter_stmts pg o head l).
+Lemma alter_stmts_ok pg o head l : qualifying head -> stmts_ok (alter_stmts pg o head l).
 Proof.
-  intros H HL. unfold alter_stmts. destruct l as [|x l]; [constructor|].
+  intros H. unfold alter_stmts. destruct l as [|x l]; [constructor|].
   constructor.
-  - unfold stmt_ok. cbn [s_refs cmd]. constructor; [exact H|].
-    apply (refs_flat_map_in _ sub_ok); [exact HL|apply alter_fwd_ok].
+  - unfold stmt_ok. cbn [s_refs cmd]. constructor; [exact H|apply refs_flat_map, alter_fwd_ok].
   - destruct (existsb irreversible (x :: l)); [constructor|].
-    constructor; [|constructor]. unfold stmt_ok. cbn [s_refs]. constructor; [exact H|].
-    apply (refs_flat_map_in _ sub_ok); [apply Forall_rev; exact HL|apply alter_bwd_ok].
+    constructor; [|constructor]. unfold stmt_ok. cbn [s_refs]. constructor; [exact H|apply refs_flat_map, alter_bwd_ok].
 Qed.
 
-(* the derived sub-change lists keep [sub_ok]: a ModifyColumn is passed on as it is, every other
-   generated item is not a ModifyColumn *)
-Lemma skip_auto_sub_ok pg subs : Forall sub_ok subs -> Forall sub_ok (skip_auto pg subs).
+Lemma pg_modify_table_ok t subs : stmts_ok (pg_modify_table t subs).
 Proof.
-  intros H. unfold skip_auto. rewrite Forall_forall in *. intros x Hx. apply filter_In in Hx. apply H, Hx.
-Qed.
-Lemma pg_alter_items_sub_ok s : sub_ok s -> Forall sub_ok (pg_alter_items s).
-Proof.
-  intros H. destruct s; cbn [pg_alter_items];
-    repeat match goal with |- context [if ?b then _ else _] => destruct b end;
-    cbn [app]; repeat first [apply Forall_nil | apply Forall_cons]; try exact H; exact I.
-Qed.
-Lemma flat_map_sub_ok (f : sub -> list sub) l :
-  (forall s, sub_ok s -> Forall sub_ok (f s)) -> Forall sub_ok l -> Forall sub_ok (flat_map f l).
-Proof.
-  intros Hf H. induction H as [|x l Hx Hl IH]; simpl; [constructor|]. apply Forall_app; split; auto.
-Qed.
-Lemma pg_sorted_sub_ok l : Forall sub_ok l -> Forall sub_ok (pg_sorted l).
-Proof.
-  intros H. unfold pg_sorted. apply Forall_app; split; rewrite Forall_forall in *; intros x Hx;
-    apply filter_In in Hx; apply H, Hx.
-Qed.
-Lemma mysql_group0_sub_ok s : sub_ok s -> Forall sub_ok (mysql_group0 s).
-Proof.
-  intros H. destruct s; cbn [mysql_group0]; repeat first [apply Forall_nil | apply Forall_cons]; exact I.
-Qed.
-Lemma mysql_group1_sub_ok s : sub_ok s -> sub_ok (mysql_group1 s).
-Proof. intros H. destruct s; simpl; try exact I; exact H. Qed.
-
-Lemma pg_modify_table_ok t subs : Forall sub_ok subs -> stmts_ok (pg_modify_table t subs).
-Proof.
-  intros HS. unfold pg_modify_table. repeat apply stmts_ok_app.
+  unfold pg_modify_table. repeat apply stmts_ok_app.
   - apply stmts_ok_flat_map. intros s. destruct s; try constructor.
     + destruct (i_uconst i); [constructor|apply pg_drop_index_ok].
     + destruct parts; [|constructor]. destruct (i_uconst from); [constructor|apply pg_drop_index_ok].
   - apply stmts_ok_flat_map. intros s. destruct s; try constructor.
     simpl. destruct from_ser, to_ser, ty; repeat constructor.
-  - apply alter_stmts_ok; [exact I|].
-    apply pg_sorted_sub_ok, flat_map_sub_ok; [apply pg_alter_items_sub_ok|apply skip_auto_sub_ok, HS].
+  - apply alter_stmts_ok. exact I.
   - apply stmts_ok_flat_map. intros s. destruct s; try constructor.
     simpl. destruct from_ser, to_ser, ty; repeat constructor.
   - apply stmts_ok_flat_map. intros s. destruct s; try constructor.
@@ -209,25 +160,19 @@ Proof.
     + destruct comment; [ok1|constructor].
 Qed.
 
-Lemma mysql_modify_table_ok t subs : Forall sub_ok subs -> stmts_ok (mysql_modify_table t subs).
-Proof.
-  intros HS. pose proof (skip_auto_sub_ok false subs HS) as HL.
-  unfold mysql_modify_table. apply stmts_ok_app; apply alter_stmts_ok; try exact I.
-  - apply flat_map_sub_ok; [apply mysql_group0_sub_ok|exact HL].
-  - rewrite Forall_forall in *. intros x Hx. apply in_map_iff in Hx. destruct Hx as [y [<- Hy]].
-    apply mysql_group1_sub_ok, HL, Hy.
-Qed.
+Lemma mysql_modify_table_ok t subs : stmts_ok (mysql_modify_table t subs).
+Proof. unfold mysql_modify_table. apply stmts_ok_app; apply alter_stmts_ok; exact I. Qed.
 
 Lemma repeat_stmt_ok n s : stmt_ok s -> stmts_ok (repeat_stmt n s).
 Proof. intros H. induction n; simpl; constructor; auto. Qed.
 
-Lemma plan_change_ok pg c : change_ok c -> stmts_ok (plan_change pg c).
+Lemma plan_change_ok pg c : stmts_ok (plan_change pg c).
 Proof.
-  intros HC. destruct c; simpl.
+  destruct c; simpl.
   - apply add_table_ok.
   - apply drop_table_ok.
   - unfold rename_table. repeat constructor.
-  - destruct pg; [apply pg_modify_table_ok|apply mysql_modify_table_ok]; exact HC.
+  - destruct pg; [apply pg_modify_table_ok|apply mysql_modify_table_ok].
   - repeat constructor.
   - repeat constructor.
   - apply repeat_stmt_ok. ok1.
@@ -235,38 +180,54 @@ Proof.
 Qed.
 
 (** no statement form writes a reference through bare Ident *)
-Theorem skeleton_refs_qualifying pg cs : Forall change_ok cs -> stmts_ok (plan_skel pg cs).
+Theorem skeleton_refs_qualifying pg cs : stmts_ok (plan_skel pg cs).
 Proof.
-  intros H. unfold plan_skel. induction H as [|c cs Hc Hcs IH]; simpl; [constructor|].
-  apply stmts_ok_app; [apply plan_change_ok; exact Hc|exact IH].
+  unfold plan_skel. induction cs as [|c cs IH]; simpl; [constructor|].
+  apply stmts_ok_app; [apply plan_change_ok|exact IH].
 Qed.
 
-Theorem skeleton_chains pg cs : Forall change_ok cs ->
+Theorem skeleton_chains pg cs :
   forall s r, In s (plan_skel pg cs) -> In r (s_refs s) -> reference r ->
   ref_chain (Some []) r = ref_names r /\
   (forall q, q <> [] -> ref_chain (Some q) r = q :: ref_names r) /\
   ref_chain None r = opt_name (ref_own r) ++ ref_names r.
 Proof.
-  intros HC s r Hs Hr R. apply ref_chain_cases; [|exact R].
-  pose proof (skeleton_refs_qualifying pg cs HC) as K.
+  intros s r Hs Hr R. apply ref_chain_cases; [|exact R].
+  pose proof (skeleton_refs_qualifying pg cs) as K.
   unfold stmts_ok in K. rewrite Forall_forall in K. specialize (K s Hs).
   unfold stmt_ok in K. rewrite Forall_forall in K. exact (K r Hr).
 Qed.
 
 
-(** round 5: the full statement (every change set) is FALSE of the skeleton, as of the code: a column type
-    change serial -> enum writes the enum type RAW (FormatType's text, neither quoted nor qualified). *)
-Definition w_raw_t : tab := mkTab (mkObj (Some [109]) [116]) [] [] [] false.
-Definition w_raw : list change :=
-  [ModifyTable w_raw_t [ModifyColumn [99] None (Some (Some [109], [101])) (Some []) None true false false]].
-Lemma skeleton_raw_witness :
-  exists s, In s (plan_skel true w_raw) /\ In (RRaw [101]) (s_refs s) /\
-            ref_chain (Some [113]) (RRaw [101]) = [[101]] /\ ~ Forall change_ok w_raw.
+(** round 5, fix C16-serial-enum-type-ident: alterType's "sequence was dropped" arm writes an enum type
+    through enumIdent, like the default arm.  BEFORE the fix it wrote FormatType's text -- the raw
+    name, neither quoted nor qualified ([RRaw], kept in [ref] for this record only). *)
+Definition alter_type_refs_before_fix (o : obj) (c : bytes) (te : option (option bytes * bytes))
+                                      (fs ts : option bytes) : list ref :=
+  match fs, ts with
+  | Some _, None => match te with Some (_, n) => [RRaw n] | None => [] end
+  | _, _ => alter_type_refs o c te fs ts
+  end.
+
+Lemma serial_to_enum_refs o c ns n sn q :
+  alter_type_refs o c (Some (ns, n)) (Some sn) None = [RType ns n] /\
+  (q <> [] -> map (ref_chain (Some q)) (alter_type_refs o c (Some (ns, n)) (Some sn) None) = [[q; n]]) /\
+  map (ref_chain (Some [])) (alter_type_refs o c (Some (ns, n)) (Some sn) None) = [[n]].
 Proof.
-  eexists. split; [|split; [|split]].
-  - vm_compute. left. reflexivity.
-  - vm_compute. right. left. reflexivity.
-  - reflexivity.
-  - intros H. inversion H as [|c cs Hc _]; subst. simpl in Hc. inversion Hc as [|x l Hx _]; subst.
-    destruct Hx as [Hx _]. specialize (Hx ltac:(discriminate) eq_refl). discriminate.
+  repeat split. intros Hq. simpl. unfold qual_prefix. destruct q; [congruence|reflexivity].
+Qed.
+
+Lemma serial_to_enum_refs_before_fix o c ns n sn q :
+  alter_type_refs_before_fix o c (Some (ns, n)) (Some sn) None = [RRaw n] /\
+  map (ref_chain (Some q)) (alter_type_refs_before_fix o c (Some (ns, n)) (Some sn) None) = [[n]] /\
+  ~ qualifying (RRaw n).
+Proof. repeat split. intros H. exact H. Qed.
+
+Lemma raw_only_there o c te fs ts n :
+  In (RRaw n) (alter_type_refs_before_fix o c te fs ts) -> fs <> None /\ ts = None /\ exists ns, te = Some (ns, n).
+Proof.
+  unfold alter_type_refs_before_fix, alter_type_refs. destruct fs as [f|], ts as [t|]; simpl;
+    try (destruct te as [[ns m]|]; simpl); intros H;
+    repeat match goal with H : _ \/ _ |- _ => destruct H as [H|H] end; try contradiction; try discriminate.
+  inversion H; subst. split; [discriminate|]. split; [reflexivity|]. exists ns. reflexivity.
 Qed.
